@@ -177,7 +177,20 @@ def run_unit(unit, repo=None, rlimit=30, extra_args=None, variant=None, mutate=N
         msg = d.get("message", "")
         spans = d.get("spans", [])
         sl = []
-        for sp in spans:
+        def _callsite(sp):
+            # a span inside a macro expansion (assert!, unreachable!, vec!): walk out to the call site
+            for _ in range(8):
+                if os.path.basename(sp.get("file_name", "")) == os.path.basename(fn):
+                    return sp
+                exp = sp.get("expansion")
+                if not exp or not exp.get("span"):
+                    return None
+                sp = dict(exp["span"], is_primary=sp.get("is_primary"), label=sp.get("label"))
+            return None
+        for sp0 in spans:
+            sp = _callsite(sp0)
+            if sp is None:
+                continue  # a span inside vstd / core: its line numbers mean nothing here
             a, b = sp.get("line_start"), sp.get("line_end") or sp.get("line_start")
             # a multi-line clause: every line of the span (the label sits on its last line)
             for ln_ in range(a, min(b, a + 40) + 1):
